@@ -7,14 +7,14 @@ M=$(cd "$1" && pwd)
 export GOFLAGS=-mod=mod GOPROXY=off GOSUMDB=off GOTOOLCHAIN=local
 W=$(mktemp -d /tmp/mw.XXXXXX); rmdir "$W"
 git -C /repo worktree add -q --detach "$W" HEAD || { echo "VERDICT $M worktree-failed"; exit 2; }
-trap 'git -C /repo worktree remove --force "$W" >/dev/null 2>&1' EXIT
+trap 'git -C /repo worktree remove --force "$W" >/dev/null 2>&1; rm -f "$W.out" "$W.fail"' EXIT
 cd "$W"
 git apply --check "$M/patch.diff" 2>/dev/null || { echo "VERDICT $M patch-does-not-apply"; exit 1; }
 cp "$M/demo_test.go" ./zz_demo_test.go
-if ! go test -vet=off -count=1 -run 'TestDemo' . >/tmp/mw.out 2>&1; then echo "VERDICT $M demo-fails-on-clean-tree"; tail -5 /tmp/mw.out; exit 1; fi
+if ! go test -vet=off -count=1 -run 'TestDemo' . >$W.out 2>&1; then echo "VERDICT $M demo-fails-on-clean-tree"; tail -5 $W.out; exit 1; fi
 git apply "$M/patch.diff"
-if go test -vet=off -count=1 -run 'TestDemo' . >/tmp/mw.out 2>&1; then echo "VERDICT $M demo-passes-with-patch"; exit 1; fi
+if go test -vet=off -count=1 -run 'TestDemo' . >$W.out 2>&1; then echo "VERDICT $M demo-passes-with-patch"; exit 1; fi
 rm ./zz_demo_test.go
-go test -vet=off -count=1 ./... 2>&1 | grep -E '^--- FAIL' | sort > /tmp/mw.fail
-if [ -s /tmp/mw.fail ]; then echo "VERDICT $M suite-fails-with-patch: $(cat /tmp/mw.fail | tr '\n' ' ')"; exit 1; fi
+go test -vet=off -count=1 ./... 2>&1 | grep -E '^--- FAIL' | sort > $W.fail
+if [ -s $W.fail ]; then echo "VERDICT $M suite-fails-with-patch: $(cat $W.fail | tr '\n' ' ')"; exit 1; fi
 echo "VERDICT $M confirmed"
